@@ -19,6 +19,8 @@ def dispatch (line : String) : String :=
   | "osfs" :: rest => osfsEngine rest
   | "git" :: rest => gitEngine rest
   | "asm14" :: rest => asm14Engine rest
+  | "zipowner" :: rest => zipOwnerEngine rest
+  | "zipextra" :: rest => zipExtraEngine rest
   | _ => "bad-op"
 
 partial def loop (hin hout : IO.FS.Stream) : IO Unit := do
